@@ -1,0 +1,8 @@
+//go:build verif
+
+package header
+
+import "time"
+
+// VerifClockDrift exposes the clock-drift allowance to the verification harness.
+func VerifClockDrift() time.Duration { return clockDrift }
